@@ -64,7 +64,7 @@ class Gen:
         if r < 0.35:
             return numdoc(self.r.choice(QUARTERS))
         if r < 0.75:
-            return strdoc(self.r.choice(STRINGS + ["12", "2.5", "-3", "true"]))
+            return strdoc(self.r.choice(STRINGS + ["12", "2.5", "-3", "true", "12abc", "3XL", "2024-01-05", "2.5.1"]))
         return {"t": self.r.choice("TFZ")}
 
     def doc(self, depth):
